@@ -6,7 +6,9 @@ import (
 	"encoding/json"
 	"fmt"
 	"io"
+	"net/http"
 	"reflect"
+	"sort"
 	"strings"
 	"testing"
 
@@ -152,6 +154,50 @@ func runC07(c c07Case) error {
 		}
 		if d := vgen.DiffResults(ind, got); d != "" {
 			return fmt.Errorf("%s: independent reader disagrees with vegeta's decoder: %s", codec.Name, d)
+		}
+	}
+	// 3. header names as a server sent them: gob and JSON carry any spelling (CSV's header block is a MIME header and
+	// is read back in canonical form, so it is left out here); "etag" next to "Etag" are two names
+	asSent := make([]vegeta.Result, len(c.Results))
+	spelled := false
+	for i, r := range c.Results {
+		asSent[i] = r
+		if len(r.Headers) == 0 {
+			continue
+		}
+		h := http.Header{}
+		j := 0
+		keys := make([]string, 0, len(r.Headers))
+		for k := range r.Headers {
+			keys = append(keys, k)
+		}
+		sort.Strings(keys)
+		for _, k := range keys {
+			vs := r.Headers[k]
+			switch j++; j % 3 {
+			case 0:
+				h[k] = vs
+			case 1:
+				h[strings.ToLower(k)], spelled = vs, true
+			default:
+				h[k], h[strings.ToLower(k)], spelled = vs, append([]string{"second spelling"}, vs...), true
+			}
+		}
+		asSent[i].Headers = h
+	}
+	if spelled {
+		for _, codec := range vgen.Codecs {
+			if codec.Name == "csv" {
+				continue
+			}
+			data, _, err := vgen.EncodeAll(codec, asSent)
+			if err != nil {
+				return err
+			}
+			got, derr := vgen.DecodeAll(codec.Dec(bytes.NewReader(data)), len(asSent)+1)
+			if d := vgen.DiffResults(asSent, got); derr != io.EOF || d != "" {
+				return fmt.Errorf("%s round trip of results whose header names are spelled as the server sent them (lower case, two spellings of one name): %v %s", codec.Name, derr, d)
+			}
 		}
 	}
 	return nil
